@@ -19,6 +19,15 @@ CLAIMED = {
     ),
 }
 
+CLAIMED["C06"] = dict(
+    category="translation_validation",
+    technique="executable Coq model of compile_rows compared syntactically with the real Core tree + first-match evaluated on the real tree for every scrutinee value, inside coqc; general Coq theorem in progress",
+    text="A Gallina model of the match compiler (strip/branch variable/bool, unit, literal, tuple, enum, struct cases, gensym threading, non-exhaustive diagnostic) is compared, tree for tree and name for name, with the Core the real compiler emits for exhaustive small and random pattern matrices; independently, the real decision tree is evaluated by the model's Core semantics against the first-match specification on every value of the scrutinee type (vm_compute). "
+         "The unbounded theorem compile_match_first_match is not yet proved, so the level claimed is per-matrix validation, not proof.",
+    design_ref="DESIGN.md §4 C06",
+    note=TRUST + " Generic enums/structs are outside the model.",
+)
+
 NOT_YET = {}
 
 def main():
